@@ -164,7 +164,7 @@ macro_rules! impl_cam {
     };
 }
 
-fn full6<T>(c: Cam16<T>) -> [T; 6] {
+fn full6<T: palette::angle::RealAngle>(c: Cam16<T>) -> [T; 6] {
     [c.lightness, c.chroma, c.hue.into_raw_degrees(), c.brightness, c.colorfulness, c.saturation]
 }
 
